@@ -129,6 +129,7 @@ func execStepOnce(context *exprContext, expr *grammar.Grammar, nextBsr *bsr.BSR)
 		}
 
 		context.result = selectChild(nodeSet)
+		context.principal = principalElement
 	}
 
 	return execContext(context, expr.Next(nextBsr))
@@ -248,11 +249,7 @@ func execNameTestAnyElement(context *exprContext, expr *grammar.Grammar) error {
 	result := make(NodeSet, 0)
 
 	for _, i := range nodeSet {
-		if _, ok := i.Node().(node.NamedNode); ok {
-			result = append(result, i)
-		}
-
-		if _, ok := i.Node().(node.Namespace); ok {
+		if context.isPrincipal(i.Node()) {
 			result = append(result, i)
 		}
 	}
@@ -296,7 +293,7 @@ func nameTestNamespaceAnyLocal(namespaceLookup string, context *exprContext, exp
 	result := make(NodeSet, 0)
 
 	for _, i := range nodeSet {
-		if node, ok := i.Node().(node.NamedNode); ok {
+		if node, ok := i.Node().(node.NamedNode); ok && context.isPrincipal(i.Node()) {
 			if node.Space() == namespaceValue {
 				result = append(result, i)
 			}
@@ -337,7 +334,7 @@ func nameTestLocalAnyNamespace(localValue string, context *exprContext, expr *gr
 	result := make(NodeSet, 0)
 
 	for _, i := range nodeSet {
-		if node, ok := i.Node().(node.NamedNode); ok {
+		if node, ok := i.Node().(node.NamedNode); ok && context.isPrincipal(i.Node()) {
 			if node.Local() == localValue {
 				result = append(result, i)
 			}
@@ -416,7 +413,7 @@ func nameTestQNameNamespaceWithLocal(namespaceLookup, local string, context *exp
 	result := make(NodeSet, 0)
 
 	for _, i := range nodeSet {
-		if node, ok := i.Node().(node.NamedNode); ok {
+		if node, ok := i.Node().(node.NamedNode); ok && context.isPrincipal(i.Node()) {
 			if node.Local() == local && node.Space() == namespaceValue {
 				result = append(result, i)
 			}
@@ -438,7 +435,7 @@ func execNameTestQNameLocalOnly(context *exprContext, expr *grammar.Grammar) err
 	queryName := expr.GetString()
 
 	for _, child := range nodeSet {
-		if elem, ok := child.Node().(node.NamedNode); ok {
+		if elem, ok := child.Node().(node.NamedNode); ok && context.isPrincipal(child.Node()) {
 			if elem.Space() == "" && elem.Local() == queryName {
 				nextResult = append(nextResult, child)
 			}
@@ -467,12 +464,14 @@ func execAxisName(context *exprContext, expr *grammar.Grammar) error {
 
 	axis := expr.GetString()
 	var result Result
+	context.principal = principalElement
 
 	switch axis {
 	case "child":
 		result = selectChild(nodeSet)
 	case "attribute":
 		result = selectAttributes(nodeSet)
+		context.principal = principalAttribute
 	case "ancestor":
 		result = selectAncestor(nodeSet)
 	case "ancestor-or-self":
@@ -487,6 +486,7 @@ func execAxisName(context *exprContext, expr *grammar.Grammar) error {
 		result = selectFollowingSibling(nodeSet)
 	case "namespace":
 		result = selectNamespace(nodeSet)
+		context.principal = principalNamespace
 	case "parent":
 		result = selectParent(nodeSet)
 	case "preceding":
@@ -545,6 +545,7 @@ func execAbbreviatedAxisSpecifier(context *exprContext, expr *grammar.Grammar) e
 	}
 
 	context.result = selectAttributes(nodeSet)
+	context.principal = principalAttribute
 	return nil
 }
 
